@@ -91,25 +91,49 @@ def es_inv(ctx):
            node=(calls[0] if calls else to.node), key='same-builder',
            why='transform_to_output does not use the builder `%s` that transform_to_internal '
                'inverts' % builder)
-    # 2-D arms
+    # 2-D arms (variables by role: the local that holds the inverse / the builder result)
     def arm(m):
         for st in m.node.body:
             if isinstance(st, ast.If) and norm_text(st.test) == 'not self.with_altitude':
                 return st
         return None
+
+    def holder(m, call_node):
+        for st in m.node.body:
+            if isinstance(st, ast.Assign) and isinstance(st.targets[0], ast.Name) and \
+                    any(x is call_node for x in ast.walk(st.value)):
+                return st.targets[0].id
+        return None
     a_i, a_o = arm(ti), arm(to)
-    ok = a_i is not None and len(a_i.body) == 1 and isinstance(a_i.body[0], ast.Assign) and \
-        norm_text(a_i.body[0].value) in ('self.TRANSFORM_2D_3D @ result',
-                                         'util.mm_prod(self.TRANSFORM_2D_3D, result)')
+    r_i = holder(ti, invs[0]) if invs else None
+    r_o = holder(to, calls[0]) if calls else None
+
+    def is_S(n):
+        return norm_text(n) in ('self.TRANSFORM_2D_3D', 'cls.TRANSFORM_2D_3D')
+    ok = False
+    if a_i is not None and len(a_i.body) == 1 and isinstance(a_i.body[0], ast.Assign) and r_i:
+        st = a_i.body[0]
+        v = st.value
+        if norm_text(st.targets[0]) == r_i:
+            if isinstance(v, ast.BinOp) and isinstance(v.op, ast.MatMult):
+                ok = is_S(v.left) and norm_text(v.right) == r_i
+            elif isinstance(v, ast.Call) and norm_text(v.func) in ('util.mm_prod', 'np.dot',
+                                                                   'np.matmul') and \
+                    len(v.args) == 2 and not v.keywords:
+                ok = is_S(v.args[0]) and norm_text(v.args[1]) == r_i
     ctx.ob('ES-INV', ok, None, '2-D internal = S @ inv(X)', f=ti, node=(a_i or ti.node),
            key='2d-internal', why='2-D transform_to_internal is not TRANSFORM_2D_3D @ inv(X)')
     ok = False
-    if a_o is not None and len(a_o.body) == 1 and isinstance(a_o.body[0], ast.Assign):
-        v = a_o.body[0].value
-        ok = isinstance(v, ast.Call) and norm_text(v.func) == 'util.mm_prod' and \
-            len(v.args) == 2 and not v.keywords and norm_text(v.args[0]) == 'result' and \
-            norm_text(v.args[1]) == 'self._transform_3d_2d(%s.VN, %s.VE)' % (to.params[1],
-                                                                             to.params[1])
+    if a_o is not None and len(a_o.body) == 1 and isinstance(a_o.body[0], ast.Assign) and r_o:
+        st = a_o.body[0]
+        v = st.value
+        want_e = 'self._transform_3d_2d(%s.VN, %s.VE)' % (to.params[1], to.params[1])
+        if norm_text(st.targets[0]) == r_o:
+            if isinstance(v, ast.BinOp) and isinstance(v.op, ast.MatMult):
+                ok = norm_text(v.left) == r_o and norm_text(v.right) == want_e
+            elif isinstance(v, ast.Call) and norm_text(v.func) == 'util.mm_prod' and \
+                    len(v.args) == 2 and not v.keywords:
+                ok = norm_text(v.args[0]) == r_o and norm_text(v.args[1]) == want_e
     ctx.ob('ES-INV', ok, None, '2-D output = X @ E(VN, VE)', f=to, node=(a_o or to.node),
            key='2d-output', why='2-D transform_to_output is not X @ _transform_3d_2d(VN, VE)')
     # S @ E = I
